@@ -395,6 +395,21 @@ pub fn profile_for(prop: &str, tier: &str) -> Profile {
             p.w_edit = 3;
             p.malformed_pct = 5;
         }
+        // what the master key publishes over time: rotations, disables, updates, prunes, re-derivations, store / load
+        "C16h" => {
+            p.w_rekey = 7;
+            p.w_update = 5;
+            p.w_edit = 5;
+            p.w_edits = [1, 1, 2, 2, 1, 6];
+            p.w_prune = 3;
+            p.w_mpk = 3;
+            p.w_roundtrip = 2;
+            p.w_keygen = 1;
+            p.w_refresh = 1;
+            p.w_encaps = 1;
+            p.w_recaps = 0;
+            p.malformed_pct = 3;
+        }
         "C03" => {
             p.w_edit = 8;
             p.w_update = 5;
